@@ -39,5 +39,5 @@ Definition c16_info (text : string) (na : Z) (n : ns) (twopl stab : bool) (optim
       let expected := flat_map (fun e => lines (crit_info M (e_crit e, e_extras e))) (by_position (entries n)) in
       let got := opt_lines info in
       prefix_list got expected &&
-      (negb optimal || (max_rank M =? 0) || Nat.eqb (length got) (length expected))
+      (negb optimal || Nat.eqb (length got) (length expected))
   end.
